@@ -230,3 +230,53 @@ def rule_save_id(prog):
                          "recording 1): the events typed for one macro are stored under the other's id and replaying either plays "
                          "the wrong keys" % (f.norm.split("::")[-1], src))
     return res
+
+
+def rule_replay_arms(prog):
+    """R-DM-ARMS (C19): replaying a press and replaying a release pace the macro alike.
+
+    tick_replay_state handles `Press((key, delay))` and `Release((key, delay))` with two copies of the same code: under the
+    `recorded` delay behaviour the recorded pause is loaded into `delay_remaining`, under `constant` it is not. If the
+    copies disagree (one of them has the two behaviours exchanged) the pauses after replayed releases collapse while the
+    hold times stay right - tap-dance and tap-hold mappings then see a different rhythm than was typed.
+
+    Rule: for each variant of the delay behaviour, "the arm stores state.delay_remaining" has the same truth value in
+    the Press arm and in the Release arm (reach_under_variant restricted to the arms of the match on DynamicMacroItem)."""
+    from kq.analysis import discr_switches, reach_under_variant
+    from kq.core import proj_fields
+    res = RuleResult("R-DM-ARMS", "the Press and Release arms of tick_replay_state treat each delay behaviour alike", floor=2)
+    f = prog.fn_opt("kanata_state_machine::kanata::dynamic_macro::tick_replay_state")
+    if f is None:
+        res.viol("anchor", "src/kanata/dynamic_macro.rs", "tick_replay_state not found")
+        return res
+    res.fn(f)
+    item = [sw for sw in discr_switches(prog, f) if (sw.adt or "").endswith("DynamicMacroItem") and "Press" in sw.all_variants]
+    delay_adt = next((n for n in prog.adts if n.endswith("::ReplayDelayBehaviour")), None)
+    if not item or delay_adt is None:
+        res.viol("anchor/match", f.loc, "the match on DynamicMacroItem / the ReplayDelayBehaviour enum was not found")
+        return res
+    sw = item[0]
+    regions = {v: sw.arm_region(v) for v in ("Press", "Release")}
+
+    def stores(blocks):
+        out = []
+        for b in sorted(blocks):
+            for si, st in enumerate(f.stmts(b)):
+                if st["k"] == "assign" and proj(st["p"]):
+                    pf = proj_fields(st["p"])
+                    if pf and pf[-1][2] == "delay_remaining":
+                        out.append(f.line_of(b, si))
+        return out
+    for v in prog.enum_variants(delay_adt).values():
+        r = reach_under_variant(prog, f, delay_adt, v)
+        sp, sr = stores(regions["Press"] & r), stores(regions["Release"] & r)
+        ok = bool(sp) == bool(sr)
+        res.inst("behaviour/" + v, where=f.loc, press_arm_loads_delay=bool(sp), release_arm_loads_delay=bool(sr), ok=ok)
+        res.oblige(ok)
+        if not ok:
+            res.viol("behaviour/" + v, "%s:%s" % (f.file, (sp or sr)[0]),
+                     "with delay behaviour %s the Press arm of tick_replay_state %s the recorded pause into delay_remaining while the Release "
+                     "arm %s: the two copies of the pacing code disagree, so pauses after replayed releases (or presses) differ from what "
+                     "was recorded and time-sensitive mappings (tap-dance, tap-hold) replay differently from how they were typed"
+                     % (v, "loads" if sp else "does not load", "does" if sr else "does not"))
+    return res
